@@ -466,6 +466,7 @@ LEVEL_TEXT = ('Machine-checked proof (Lean 4) over the hand-written inspector mo
               'every prefix of the feed, each region holds at most its length, every region that can exist has a length '
               'capped by the generated class constants (DESC_MAX_SIZE clamp, fixed 64 KiB metadata table, item length '
               'clamp, count limits), and the sum reported by context_info is at most 1.5 MiB for VMDK and 512 KiB otherwise; '
+              'all ten inspectors of one wrapper together retain at most 6 MiB (retained_all_inspectors_le, all_limits_sum); '
               'the numeric step is evaluated on the region tables and constants extracted from the code on every run. The '
               'model is tied to the code by a differential correspondence that compares every region\'s offset, length and '
               'held byte count after every chunk.')
